@@ -303,6 +303,44 @@ theorem apply_error_class {cfg : Cfg} (hv : cfg.validatesValues = true) (hc : cf
   applyWithCondition_error_class hv hparse hcond hpaths
     (fun _ _ _ hf => by rw [hc] at hf; cases hf) hm hsize hns h
 
+/-- COMPLETE AGREEMENT WITH THE SPEC, `_partial`: success and failure alike, for every patch in
+    which no op runs on a document an earlier op of the SAME patch spliced a container into
+    (`NoSplice`).  What is missing relative to the full statement is exactly the patches violating
+    `NoSplice` — the recorded finding C13-spliced-value-opaque, closed witness
+    `witness_spliced_opaque` (`SET x ← {"a":1}; SET x.a ← 2`: the Spec applies both, the code
+    answers TYPE_MISMATCH).  The success half needs no such hypothesis (`apply_refines_spec`). -/
+theorem apply_agrees_spec_nosplice_partial {cfg : Cfg} (hv : cfg.validatesValues = true) (hc : cfg.rmvalCanon = true)
+    {body : Bytes} {ops : List Op} {cond : Option Condition} {t : Node}
+    (hparse : parse body = .ok t)
+    (hcond : (match cond with | none => Except.ok () | some cd => evalCond cfg t cd) = .ok ())
+    (hpaths : ∀ op ∈ ops, op.path.length < 2 ^ 32) (hm : ∀ op ∈ ops, MergeAccepted op)
+    (hsize : maxCh t + totalGrowth cfg ops < 2 ^ 32) (hns : NoSplice cfg t ops) :
+    match applyWithCondition cfg body ops cond with
+    | .ok out => ∃ d, Spec.refOps t ops = .ok d ∧ parse out = .ok d
+    | .error e => Spec.refOps t ops = .error e := by
+  cases ha : applyWithCondition cfg body ops cond with
+  | ok out => exact apply_refines_spec hv hc hparse hpaths hsize ha
+  | error e =>
+    simp only
+    have hw := parse_wf hparse
+    have hops : applyOps cfg t ops = .error e := by
+      unfold applyWithCondition at ha
+      rw [hparse] at ha; simp only at ha
+      cases cond with
+      | none =>
+        simp only at ha
+        cases h : applyOps cfg t ops with
+        | ok t' => rw [h] at ha; cases ha
+        | error e' => rw [h] at ha; injection ha with ha; rw [ha]
+      | some cd =>
+        simp only at ha hcond
+        rw [hcond] at ha; simp only at ha
+        cases h : applyOps cfg t ops with
+        | ok t' => rw [h] at ha; cases ha
+        | error e' => rw [h] at ha; injection ha with ha; rw [ha]
+    exact applyOps_error_class_conv hv hpaths (fun _ _ _ hf => by rw [hc] at hf; cases hf) hm hsize
+      (wf_WfB t hw.1) hw.2 hns hops
+
 /-- … and one op on a parsed document: complete agreement, result and error class alike -/
 theorem op_agrees {cfg : Cfg} (hv : cfg.validatesValues = true) (hc : cfg.rmvalCanon = true)
     {body : Bytes} {t : Node} {op : Op} (hparse : parse body = .ok t) (hsize : maxCh t < 2 ^ 32)
